@@ -468,6 +468,10 @@ func (s *storageRunner) httpStep(r *runner, f []string, line string) bool {
 				if bytes.Contains(rec.Body.Bytes(), []byte(sec)) {
 					leak = " leak=1"
 				}
+				// inside a JSON string the value appears escaped (a quote, a backslash, a newline in the password)
+				if esc, err := json.Marshal(sec); err == nil && len(esc) > 2 && bytes.Contains(rec.Body.Bytes(), esc[1:len(esc)-1]) {
+					leak = " leak=1"
+				}
 				for _, hv := range rec.Header() {
 					if strings.Contains(strings.Join(hv, ","), sec) {
 						leak = " leak=1"
@@ -597,7 +601,11 @@ func httpBaseConfig(g *gen, clusters []string) string {
 	return t.b.String()
 }
 
-var httpParamPool = []string{"nope", "C0", "c0.servers", "c0.class-name", "a b", "ü", "a%2Fb", "%00", "%20", ".", "..", "x..y", "nulln.extras", "cons0.servers.0", "c0.servers.0", "c0.servers.-1", "cons0.servers.-1", "c0.servers.00", "+", "%2e%2e"}
+var httpParamPool = []string{"nope", "C0", "c0.servers", "c0.class-name", "a b", "ü", "a%2Fb", "%00", "%20", ".", "..", "x..y", "nulln.extras", "cons0.servers.0", "c0.servers.0", "c0.servers.-1", "cons0.servers.-1", "c0.servers.00", "+", "%2e%2e",
+	// characters that Unicode case FOLDING (not lower-casing) identifies with ASCII letters: long s, Kelvin sign
+	"my\u017ftorage", "con\u017f0", "nulln\u212a", "\u212a", "C\u2070",
+	// a second round of percent-decoding would change these
+	"a+b", "a%2Bb", "p%2Fq", "x%20y", "%25"}
 
 func escSeg(s string) string {
 	// names are path-escaped, except the pool entries that are raw escapes themselves
@@ -610,7 +618,8 @@ func escSeg(s string) string {
 func genHTTP(g *gen) {
 	n := 60 * g.scale
 	clusters := []string{"c0", "c 1"}
-	groups := []string{"g0", "g.1", "ü", "x y"}
+	// "a+b" and "p%2Fq" are literal group names: a handler that decodes the path parameter once more loses them
+	groups := []string{"g0", "g.1", "ü", "x y", "a+b", "p%2Fq"}
 	topics := []string{"t0", "t1"}
 	for i := 0; i < n; i++ {
 		g.newCase()
@@ -745,6 +754,15 @@ func genHTTP(g *gen) {
 				req("GET", "v3", "kafka", c, "consumer", gr, "lag")
 			}
 		}
+		if i%3 == 0 {
+			// module names in other cases (viper folds case: 200) and in spellings that only Unicode case FOLDING, not
+			// lower-casing, identifies with them (long s, Kelvin sign: 404)
+			for _, kn := range [][2]string{{"storage", "MyStorage"}, {"storage", "my\u017ftorage"}, {"evaluator", "MYEVAL"}, {"consumer", "con\u017f0"},
+				{"consumer", "CONS0"}, {"notifier", "nulln\u212a"}, {"notifier", "NullN"}, {"cluster", "C0"}, {"cluster", "c\u2070"}} {
+				req("GET", "v3", "config", kn[0], kn[1])
+			}
+			req("GET", "v3", "kafka", "C0")
+		}
 	}
 }
 
@@ -758,6 +776,20 @@ func randSecret(g *gen) string {
 	b := make([]byte, 20)
 	for i := range b {
 		b[i] = al[g.intn(len(al))]
+	}
+	// shapes a "helpful" diagnostic might react to: a leading $ (looks like an unexpanded variable), %…%, stray
+	// whitespace around the value, quotes
+	switch g.intn(8) {
+	case 0:
+		return "$" + string(b)
+	case 1:
+		return "%" + string(b) + "%"
+	case 2:
+		return " pw-" + string(b) + " "
+	case 3:
+		return "pw-" + string(b) + "\n"
+	case 4:
+		return "${" + string(b) + "}"
 	}
 	return "pw-" + string(b)
 }
